@@ -59,6 +59,17 @@ def run_c16(ck, ctx):
             if r.exit != want:
                 ck.violation('exit', {'what': 'exit status does not follow the contract', 'case': name, 'args': args, 'exit': r.exit, 'expected': want,
                                       'stderr': L.ANSI.sub('', r.stderr)[-400:], 'input_hex': data.hex()[:100000]})
+        # the code filter applies to every reported message, also to the ones the custom checks add at the end of the run:
+        # `-w 9001` shows the [E9001] message of a failed packet-count check, `-w 10` does not; the total is 1 either way
+        for wcode, shown in (('9001', True), ('10', False), ('9002', False)):
+            r = L.run_cli(['check', 'sanity', '-c', ctoml, '-w', wcode, '-E', str(N)], G.encode(clean))
+            err = L.ANSI.sub('', r.stderr)
+            ck.case((rep, 'custom_w', wcode)); ck.count('custom_fail_with_code_filter')
+            tot = r.stats['error_stats']['total_errors'] if r.stats else None
+            if ('[E9001]' in err) != shown or tot != 1 or r.exit != N:
+                ck.violation('code_filter', {'what': 'a failed custom check (packet count) under -w: the [E9001] message must be shown iff 9001 is listed; total 1; exit N',
+                                             'w': wcode, 'shown': '[E9001]' in err, 'expected_shown': shown, 'total': tot, 'exit': r.exit, 'stderr': err[-300:],
+                                             'args': ['check', 'sanity', '-c', 'cdps.toml (cdps = packets + 1)', '-w', wcode, '-E', str(N)], 'input_hex': G.encode(clean).hex()[:100000]})
         r = subprocess.run([L.BIN, os.path.join(wd, 'does_not_exist.raw'), 'check', 'sanity', '-E', '9'], stdout=subprocess.PIPE, stderr=subprocess.PIPE)
         ck.case((rep, 'missing'))
         if r.returncode == 0:
